@@ -12,7 +12,8 @@ import (
 // wildcard in a directive stands for any one segment.
 
 var c07SpecAlphabet = []string{"a", "b", WildCard}
-var c07PathAlphabet = []string{"a", "b", "c", WildCard, "$set", "$delete"}
+// "$ref" is an ordinary key that merely starts with '$': only $set and $delete are patch operators
+var c07PathAlphabet = []string{"a", "b", "c", WildCard, "$set", "$delete", "$ref"}
 
 func c07RefMatches(directives [][]string, path []string) bool {
 	var p []string
